@@ -172,7 +172,8 @@ class LoadError(Exception):
     """the shipped files could not be loaded (not a design outcome)"""
 
 
-def design(topo, eqpt, extra=(), power_mode=None, span=None, si=None, json_data=None, strip=False, edfa_attrs=None):
+def design(topo, eqpt, extra=(), power_mode=None, span=None, si=None, json_data=None, strip=False, edfa_attrs=None,
+           lumped=False):
     """load + real designed_network under the recorders -> (network, equipment, reference channel, recorder)"""
     from gnpy.tools.json_io import network_from_json
     from gnpy.tools.worker_utils import designed_network
@@ -180,6 +181,9 @@ def design(topo, eqpt, extra=(), power_mode=None, span=None, si=None, json_data=
         eq = load_equipment(eqpt, extra, power_mode, span, si, edfa_attrs) if not isinstance(eqpt, dict) else eqpt
         if strip:
             json_data = stripped_topology(topo)
+        if lumped:
+            from gnpy.tools.json_io import load_gnpy_json
+            json_data = with_lumped_losses(json_data if json_data is not None else load_gnpy_json(Path(topo)))
         net = network_from_json(copy.deepcopy(json_data), eq) if json_data is not None else load_topology(topo, eq)
     except Exception as e:                                               # noqa
         raise LoadError(f'{type(e).__name__}: {e}') from e
@@ -259,13 +263,40 @@ def amp_members(el, bname):
 
 
 def passive_loss(el):
-    """loss in dB the design has to compensate for one passive line element; a RamanFiber counts with the Raman gain
-    the design estimated for it (element attribute written by the design)"""
+    """loss in dB the design has to compensate for one passive line element, computed from the element's PARAMETERS
+    (what propagation will apply), not read from the element's own `loss` summary: fibre attenuation at the reference
+    frequency x length + connectors + input attenuator + every lumped loss inside the fibre; a Fused element's loss.
+    A RamanFiber counts with the Raman gain the design estimated for it (element attribute written by the design)."""
+    import numpy as np
     from gnpy.core import elements as E
-    loss = float(el.loss)
-    if isinstance(el, E.RamanFiber):
-        loss -= float(getattr(el, 'estimated_gain', 0.0))
-    return loss
+    if isinstance(el, E.Fiber):                                     # RamanFiber is a Fiber
+        p = el.params
+        coef = np.atleast_1d(np.asarray(p.loss_coef, dtype=float))                      # dB/m
+        if coef.size > 1:
+            coef_ref = float(np.interp(p.ref_frequency, np.atleast_1d(p.f_loss_ref), coef))
+        else:
+            coef_ref = float(coef[0])
+        lumped = sum(float(x['loss']) for x in (p.lumped_losses if p.lumped_losses is not None and len(p.lumped_losses) else []))
+        loss = coef_ref * float(p.length) + float(p.con_in) + float(p.con_out) + float(p.att_in) + lumped
+        if isinstance(el, E.RamanFiber):
+            loss -= float(getattr(el, 'estimated_gain', 0.0))
+        return loss
+    if isinstance(el, E.Fused):
+        return float(el.params.loss)
+    return float(el.loss)
+
+
+def with_lumped_losses(data, every=2, loss_db=2.0):
+    """topology JSON with a lumped loss (splice / tap) put at mid-span inside every `every`-th fibre of at least 10 km"""
+    data = copy.deepcopy(data)
+    n = 0
+    for el in data['elements']:
+        if el.get('type') == 'Fiber' and isinstance(el.get('params'), dict) and el['params'].get('length'):
+            km = float(el['params']['length']) * (1e-3 if el['params'].get('length_units', 'km') == 'm' else 1.0)
+            n += 1
+            if km >= 10 and n % every == 0 and not el['params'].get('lumped_losses'):
+                el['params']['lumped_losses'] = [{'position': round(km / 2, 3), 'loss': loss_db}]
+    return data
 
 
 NXT_ROADM, NXT_SPAN, NXT_AMP, NXT_OTHER = 0, 1, 2, 3
@@ -398,13 +429,14 @@ def w2dbm(w):
 
 # --------------------------------------------------------------------------------------------- synthetic two-ROADM line
 def line_topology(spans, roadm_a=None, roadm_b=None, amps=None, fiber_type='SSMF', amp_type='Edfa', reverse=True,
-                  ingress='roadm'):
+                  ingress='roadm', head=None):
     """ROADM A -> [amp 0] -> span 1 -> [amp 1] -> ... -> span n -> [amp n] -> ROADM B (and a plain reverse fibre).
 
     spans: list of spans, each a list of segments dict(kind='fiber', length_km, loss_coef, con_in, con_out, att_in,
            type_variety) or dict(kind='fused', loss)
     amps:  {index: element-config-dict}; an index absent from `amps` is left to auto-design (which inserts it)
     ingress='trx': the line starts directly at transceiver A (no ROADM A, no booster, no reverse fibre)
+    head:  segments (same form as a span's) placed between ROADM A and amplifier 0
     """
     amps = amps or {}
     els = [{'uid': 'trx A', 'type': 'Transceiver'}, {'uid': 'trx B', 'type': 'Transceiver'},
@@ -425,6 +457,11 @@ def line_topology(spans, roadm_a=None, roadm_b=None, amps=None, fiber_type='SSMF
             els.append(cfg)
             cx.append((prev, cfg['uid']))
             prev = cfg['uid']
+    for j, sg in enumerate(head or [], start=1):
+        uid = f'fused 0.{j}'
+        els.append({'uid': uid, 'type': 'Fused', 'params': {'loss': sg['loss']}})
+        cx.append((prev, uid))
+        prev = uid
     if ingress == 'roadm':
         put_amp(0)
     for k, span in enumerate(spans, start=1):
@@ -437,7 +474,8 @@ def line_topology(spans, roadm_a=None, roadm_b=None, amps=None, fiber_type='SSMF
                 els.append({'uid': uid, 'type': sg.get('type', 'Fiber'), 'type_variety': sg.get('type_variety', fiber_type),
                             'params': {'length': sg['length_km'], 'length_units': 'km',
                                        'loss_coef': sg.get('loss_coef', 0.2), 'con_in': sg.get('con_in'),
-                                       'con_out': sg.get('con_out'), 'att_in': sg.get('att_in', 0)}})
+                                       'con_out': sg.get('con_out'), 'att_in': sg.get('att_in', 0),
+                                       **({'lumped_losses': sg['lumped_losses']} if sg.get('lumped_losses') else {})}})
             cx.append((prev, uid))
             prev = uid
         put_amp(k)
@@ -687,6 +725,13 @@ def selection_traces(net, eq, rec, name, complete=True):
             continue
         node, band = r['node'], band_of[id(r['node'])]
         parent = member.get(id(node))
+        # the neighbours are read from the TOPOLOGY (what really sits before / after the amplifier), not from the
+        # arguments the design passed along
+        placed = parent or node
+        before, after = list(net.predecessors(placed)), list(net.successors(placed))
+        if len(before) != 1 or len(after) != 1:
+            continue
+        r = dict(r, prev=before[0], next=after[0])
         c, own, rdm, jp = selection_context(eq, parent or node, r['prev'], r['next'], band, s['gain_target'],
                                             s['power_target'], s['ext'])
         names, lib = library_models(eq, s['gain_target'], own, rdm, nf_cache)
